@@ -146,6 +146,8 @@ ENUM_GROUPS = {
         tests=[
             _t('map_desc_rewrites_exactly_the_class_names', ['C06', 'C16'], 'map_desc replaces exactly the names inside L...; (every other byte kept, shape preserved), Err exactly for an unterminated L or L;, no panic',
                'all strings of length <= 6 over {L ; [ a b I (} (137 257 strings), two-entry remapper a->xy, b->a'),
+            _t('map_desc_with_multibyte_names', ['C06', 'C16'], 'the same with class names that contain multi-byte characters (byte offsets differ from character positions), no panic',
+               'all strings of length <= 6 over the 7 symbols {L ; [ a e-acute euro-sign I} (137 257 strings), two-entry remapper a->xy, b->a'),
             _t('map_class_identity_fallback', ['C06'], 'ARemapper::map_class: mapped name for mapped classes, the unchanged name otherwise',
                'all valid object class names of length <= 4 over {a b / $ x}'),
             dict(name='canary_must_fail', props=[], canary=True, text='must fail', bound=''),
